@@ -117,7 +117,7 @@ func (fr *Frame) execBuiltin(st *State, f *ssa.Builtin, c *ssa.CallCommon, args 
 		case *types.Basic:
 			n := app(v.smt.declareFun("str.len", []string{"Str"}, "Int"), argT(0))
 			fr.defVal(res, n)
-			v.smt.assert("(>= " + fr.vals[res].T + " 0)")
+			v.smt.assert(and("(>= "+fr.vals[res].T+" 0)", "(< "+fr.vals[res].T+" 9223372036854775808)"))
 		case *types.Map:
 			n := app(v.smt.declareFun("map.len", []string{"Int"}, "Int"), argT(0))
 			fr.defVal(res, n)
@@ -284,7 +284,7 @@ func (e *Engine) inRepo(f *ssa.Function) bool {
 
 // inlinable: small, loop-free helper in the repository.
 func (e *Engine) inlinable(f *ssa.Function) bool {
-	if f.Blocks == nil || len(f.Blocks) > 12 {
+	if f.Blocks == nil || len(f.Blocks) > 150 {
 		return false
 	}
 	for _, b := range f.Blocks {
@@ -418,6 +418,7 @@ func (fr *Frame) inlineCall(st *State, f *ssa.Function, c *ssa.CallCommon, args 
 		depth: fr.depth + 1, outSt: map[*ssa.BasicBlock]*State{}, edges: map[[2]int]string{}, params: map[string]Val{}, parent: fr}
 	saved := st.defers
 	st.defers = nil
+	sub.entry = st.clone()
 	sub.run(st.clone(), bound)
 	if len(sub.exits) == 0 {
 		// callee never returns (panics): path ends
@@ -575,6 +576,9 @@ func (v *FnVerifier) checkEnsures(fr *Frame, st *State, res []Val, pos token.Pos
 	}
 	// monitor: no lock held on return
 	for hk := range v.heldKeys {
+		if v.noMonitor() {
+			break
+		}
 		recv := v.recvTerm(fr)
 		if recv == "" {
 			continue
@@ -612,7 +616,7 @@ func (v *FnVerifier) guardedBy(key string) (string, bool) {
 
 func (fr *Frame) checkGuarded(st *State, p Val, pos token.Pos, what string) {
 	v := fr.v
-	if p.Loc == nil || len(v.guards) == 0 {
+	if p.Loc == nil || len(v.guards) == 0 || v.noMonitor() {
 		return
 	}
 	hk, ok := v.guardedBy(p.Loc.key)
@@ -765,3 +769,5 @@ func (fr *Frame) execSend(st *State, x *ssa.Send) {
 func (fr *Frame) execSelect(st *State, x *ssa.Select) {
 	fr.v.unsupported("select in %s", fr.fn)
 }
+
+func (v *FnVerifier) noMonitor() bool { return v.fc != nil && v.fc.Opts["nomonitor"] != "" }
